@@ -17,11 +17,11 @@ THEOREMS = [L + t for t in (
     "closed_after_unregister", "closed_after_goroutines_exit", "channels_closed_once", "channels_closed_by_owner",
     "stop_terminates", "workers_only_when_registered", "lock_order_acyclic_modulo_feedback",
     "f37_as_is_stuck", "no_stuck_statement_fails_as_is", "f38_failed_connect_as_is_stuck", "f38_stop_as_is_leaves_connection",
-    "f37_stop_as_is_stuck", "f47_once_deadlock_as_is_stuck", "f49_as_is_poll_without_queue")]
+    "f37_stop_as_is_stuck", "f47_once_deadlock_as_is_stuck", "f48_auth_send_as_is_stuck", "f49_as_is_poll_without_queue")]
 LOCK_THEOREMS = [L + "lock_feedback_empty", L + "lock_order_acyclic"]
 COMPS = ["broker"]          # Go side; the Lean side is oracle_lifecycle (LifecycleStream.model)
 NEEDS_FACTS = True
-QT = 3000
+QT = 2000
 
 # ---------------------------------------------------------------- generator
 
@@ -38,7 +38,7 @@ def _after(rng):
 
 def gen(rng):
     kind = rng.choice(["disc", "disc", "err", "err", "boundary", "failconn", "failconn", "takeover", "stop", "stop",
-                       "stalled", "preclose"] + (["timeout"] if rng.random() < 0.12 else []))
+                       "stalled", "preclose", "auth"] + (["timeout"] if rng.random() < 0.12 else []))
     zl = 0
     ops = [f"new qt={QT} lc=1 ret=0 zl={zl}"]
     v = rng.choice([4, 4, 5, 5, 3])
@@ -95,6 +95,16 @@ def gen(rng):
         ops += ["rawconn a v=5 noread=1 cid=ca", "burst a C:ca:5 SUB:1:lc/t", "conn p cp v=5",
                 "burst p " + " ".join(["PUB0:lc/t"] * n), "census", f"conn b ca v={rng.choice([4, 5])}", "census", "counts",
                 "lclose a", "census", "counts"]
+    elif kind == "auth":
+        # enhanced authentication: k continuation rounds, completed or not, against a peer that reads or one that does not
+        k = rng.choice([0, 1, 3, 8, 9, 10, 12])
+        if rng.random() < 0.35:
+            ops += ["rawconn a v=5 noread=1 cid=ca", "burst a CA:ca " + " ".join(["AU:more"] * k), "census", "lclose a", "census", "counts"]
+        else:
+            done = rng.random() < 0.7
+            ops += ["rawconn a v=5", "burst a CA:ca " + " ".join(["AU:more"] * k + (["AU:done", "PING"] if done else [])), "census", "counts"]
+            if rng.random() < 0.5:
+                ops += ["lclose a", "census", "counts"]
     elif kind == "preclose":
         ops += [f"rawconn a v={v}", "lclose a", "census", "counts"]
     elif kind == "stop":
@@ -125,11 +135,11 @@ EV = re.compile(r"^[A-Za-z0-9_]+:(connack_ok|connack_err|closed)(,(connack_ok|co
 def canon_line(op, line):
     f = op.split()
     toks = line.split(" ")
-    hang = any(t.startswith("HANG") for t in toks)
+    hang = any(t.startswith(("HANG", "WEDGED")) for t in toks)
     keep, evs = [], {}
     connack_for = f[1] if f and f[0] == "conn" and len(f) > 1 else None
     for t in toks:
-        if not t or t == "-" or t.startswith("HANG"):
+        if not t or t == "-" or t.startswith(("HANG", "WEDGED")):
             continue
         if "|H:" in t and "|P:" in t:
             name, rest = t.split("|H:", 1)
@@ -160,7 +170,8 @@ STUCK_HINT = {
                       "any more, so serve() never gets past readWg.Wait() and the client is never unregistered",
     "sync.Mutex.Lock": "[F47] setError is blocked on errOnce: the goroutine inside errOnce.Do is itself blocked sending the DISCONNECT "
                        "on a full client.out",
-    "serve:chan_send": "connectWithTimeOut is blocked on a plain send to client.out",
+    "serve:chan_send": "[F48] connectWithTimeOut is blocked on a plain send to client.out (AUTH(continue) / CONNACK(error)): client.out is "
+                       "full, writeLoop is stuck on or gone from a peer that does not read, and `connected` is never closed",
 }
 
 def _stuck_msg(stuck):
@@ -195,11 +206,16 @@ class Ref:
                             self.server_ends(m)          # take-over
                     self.st[n], self.cid[n] = "reg", f[1]
                 elif f[0] == "CA":
-                    self.st[n] = "auth"
+                    self.st[n], self.cid[n] = "auth", f[1]
                 else:
                     self.server_ends(n)                  # refused CONNECT / first packet is not CONNECT
             elif s == "auth":
-                self.server_ends(n)                      # (the generator never continues an authentication)
+                if f[0] == "AU" and f[1] == "done":
+                    self.st[n] = "reg"
+                elif f[0] == "AU":
+                    pass
+                else:
+                    self.server_ends(n)
             elif f[0] in ("DISC", "ERR", "MAL"):
                 self.server_ends(n)
     def alive(self):
@@ -314,9 +330,14 @@ class LifecycleStream(core.Stream):
         # the scripts are deterministic: a failure that is real shows again when the case runs alone. One that came from
         # an overloaded machine (quiescence not reached in time, the 5 s CONNECT timer firing early in wall-clock terms)
         # does not. Failing cases are therefore re-run one at a time before they are believed.
+        # HANG with a goroutine parked in `chan send` / on a mutex in the census is a confirmed wedge, not a slow machine:
+        # rename the token so that core.correspond does not re-run the case (serially, twice) before believing it
+        for i, o in enumerate(outs):
+            if any((m := CENSUS.search(l)) and m.group(6) != "-" for l in o):
+                outs[i] = [re.sub(r"\bHANG", "WEDGED", l) for l in o]
         if len(cases) > 1:
             for i, (c, o) in enumerate(zip(cases, outs)):
-                if self.predicate and core.safe_pred(self, c, o):
+                if self.predicate and core.safe_pred(self, c, o) and not any("HANG" in l or "WEDGED" in l for l in o):
                     o2 = core.run_cases(cmd, [c], self.timeout)[0]
                     if not core.safe_pred(self, c, o2):
                         outs[i] = o2
@@ -352,7 +373,7 @@ def streams(tier):
 def _tag(tag):
     return lambda info: tag in (info.get("why") or "")
 
-RECOGNISERS = {"c15_f37": _tag("[F37"), "c15_f38": _tag("[F38]"), "c15_f47": _tag("F47]"),
+RECOGNISERS = {"c15_f37": _tag("[F37"), "c15_f38": _tag("[F38]"), "c15_f47": _tag("F47]"), "c15_f48": _tag("[F48]"),
                "c15_lock_cycle": lambda info: info.get("kind") == "lockorder"}
 
 def _lock_cycle_report():
@@ -438,7 +459,8 @@ def run(r):
 
 RULE = ("lifecycle scripts on a real in-process broker: a fatal packet (DISCONNECT, handler error, malformed bytes) with 0..12 more "
         "packets behind it in ONE write — the boundary is the 8 slots of client.in —, the peer going away at a packet boundary, refused "
-        "CONNECT / first packet not CONNECT / close before CONNECT / CONNECT timeout (5 s, rare), take-over with traffic in flight on the "
+        "CONNECT / first packet not CONNECT / close before CONNECT / CONNECT timeout (5 s, rare), enhanced authentication with 0..12 "
+        "continuation rounds (peer reading or not), take-over with traffic in flight on the "
         "old connection, take-over of a subscriber that stopped reading with its out queue full, Stop with registered, unregistered and "
         "refused connections and a burst in flight; v3.1 / v3.1.1 / v5. Observed after exact quiescence: closed connections, registered "
         "clients, goroutine census by kind (runtime.Stack), Stop's return, Unload / OnStop counts; compared with the Lean lifecycle model "
